@@ -184,7 +184,8 @@ PROPS = {
     },
     "C08": {
         "required_theorems": ["c08_sync_chunk_independent", "c08_sync_prefix", "c08_sync_window", "c08_skip", "c08_delay",
-                              "c08_rtlsdr", "c08_no_panic_hand", "c08_resampler", "c08_fir"],
+                              "c08_rtlsdr", "c08_no_panic_hand", "c08_resampler", "c08_fir", "c08_gated", "c08_gated_prefix",
+                              "c08_zerocrossing_no_panic"],
         "runs": [
             # valid IL2P transmissions (library test vector + sync tags) between noise: frames must survive any chunking
             {"sub": "blocks", "quick": ["--seed", "{seed}", "--mode", "self", "--set", "every", "--block", "il2p", "--cases", 250,
@@ -215,7 +216,7 @@ PROPS = {
     },
     "C09": {
         "required_theorems": ["c09_sync_within_windows", "c09_sync_wait_input_truthful", "c09_sync_wait_output_truthful",
-                              "c09_sync_progress", "c09_sync_retires", "c09_skip", "c09_rtlsdr", "c09_fir"],
+                              "c09_sync_progress", "c09_sync_retires", "c09_skip", "c09_rtlsdr", "c09_fir", "c09_gated"],
         "runs": [
             {"sub": "blocks", "quick": ["--seed", "{seed}", "--set", "modelled", "--cases", 800, "--steps", 40, "--tag-heavy", 1],
              "thorough": ["--seed", "{seed}", "--set", "modelled", "--cases", 40000, "--steps", 80, "--tag-heavy", 1]},
@@ -307,7 +308,8 @@ PROPS = {
         "assumptions": ["fft_stream.rs (plain FFT framing) is covered by C08 self-checks only"],
     },
     "C12": {
-        "required_theorems": ["c12_sync_same_index", "c12_sync_any_chunking", "c12_contract_sync", "c12_skip", "c12_delay", "c12_fir", "c12_fft"],
+        "required_theorems": ["c12_sync_same_index", "c12_sync_any_chunking", "c12_contract_sync", "c12_skip", "c12_delay", "c12_fir", "c12_fft",
+                              "c12_skip_any_chunking", "c12_delay_any_chunking", "c12_fir_any_chunking"],
         "runs": [
             {"sub": "blocks", "quick": ["--seed", "{seed}", "--set", "modelled", "--cases", 1200, "--steps", 40, "--tag-heavy", 1],
              "thorough": ["--seed", "{seed}", "--set", "modelled", "--cases", 60000, "--steps", 80, "--tag-heavy", 1]},
@@ -315,6 +317,13 @@ PROPS = {
                                         "--tag-heavy", 1],
              "thorough": ["--seed", "{seed}", "--mode", "self", "--set", "every", "--cases", 70000, "--steps", 80,
                           "--tag-heavy", 1], "timeout": 20000},
+            # FirFilter, Hilbert, FftFilter (integer engine): every call's tags against the Lean model
+            {"sub": "blocks", "quick": ["--seed", "{seed}", "--set", "dsp", "--cases", 500, "--steps", 30, "--tag-heavy", 1],
+             "thorough": ["--seed", "{seed}", "--set", "dsp", "--cases", 30000, "--steps", 60, "--tag-heavy", 1]},
+            # output kept full (the call that is cut short by the output must keep the tags of what it did not consume)
+            {"sub": "blocks", "quick": ["--seed", "{seed}", "--mode", "self", "--set", "none", "--cases", 0, "--tight-probes", 45],
+             "thorough": ["--seed", "{seed}", "--mode", "self", "--set", "none", "--cases", 0, "--tight-probes", 3000],
+             "timeout": 20000},
         ],
         "rule": "as C08 with 1..12 tags per input clustered on the first/last samples and at chunk boundaries; tags collected with "
                 "absolute output positions; modelled blocks compared with the Lean model, every block: drip-fed vs greedy run "
@@ -450,7 +459,7 @@ PROPS = {
     },
     "C15": {
         "required_theorems": ["c15_au_total", "c15_au_block_no_panic", "c15_hdlc_total", "c15_hdlc_guard", "c15_lfsr_total", "c15_sync_no_panic",
-                              "c15_hand_no_panic"],
+                              "c15_hand_no_panic", "c15_zerocrossing_no_panic"],
         "runs": [
             {"sub": "crash", "quick": ["--seed", "{seed}", "--cases", 400, "--burst-len", 5, "--probes", 1],
              "thorough": ["--seed", "{seed}", "--cases", 20000, "--burst-len", 8, "--probes", 1], "timeout": 40000},
@@ -478,10 +487,20 @@ PROPS = {
     "C20": {
         "required_theorems": ["c20_chain_1200_as_documented", "c20_chain_9600_as_documented", "c20_nrzi",
                               "c20_nrzi_any_start", "c20_polarity_irrelevant", "c20_digital_1200", "c20_digital_9600",
-                              "c20_descrambler_taps", "c20_descrambler_block"],
+                              "c20_descrambler_taps", "c20_descrambler_block", "c20_zero_crossing_ideal", "c20_9600_from_baseband",
+                              "c20_zero_crossing_small_sps_duplicates"],
         "runs": [
             {"sub": "e2e", "quick": ["--seed", "{seed}", "--cases", 60, "--probes", 1],
              "thorough": ["--seed", "{seed}", "--cases", 6000, "--probes", 1], "timeout": 40000},
+            # the step function of the clock-recovery theorem (zcStep) against the real ZeroCrossing, bit for bit in f32
+            {"sub": "blocks", "quick": ["--seed", "{seed}", "--set", "modelled", "--block", "zerocross", "--cases", 150, "--steps", 40],
+             "thorough": ["--seed", "{seed}", "--set", "modelled", "--block", "zerocross", "--cases", 6000, "--steps", 60]},
+            {"sub": "blocks", "quick": ["--seed", "{seed}", "--set", "modelled", "--block", "zerocross_clk", "--cases", 60, "--steps", 40],
+             "thorough": ["--seed", "{seed}", "--set", "modelled", "--block", "zerocross_clk", "--cases", 3000, "--steps", 60]},
+            # the statement of c20_zero_crossing_ideal on the implementation's float arithmetic
+            {"sub": "blocks", "quick": ["--seed", "{seed}", "--mode", "self", "--set", "none", "--cases", 0, "--zc-ideal", 150],
+             "thorough": ["--seed", "{seed}", "--mode", "self", "--set", "none", "--cases", 0, "--zc-ideal", 8000],
+             "timeout": 20000},
         ],
         "rule": "generated clean transmissions: 1..4 AX.25 frames (payload 10..120 bytes, random or stuffing-heavy 0xFF/0x7E/0x3F/"
                 "0x00), preamble of 20..100 flags, 2..6 flags between frames, trailing flags; Bell-202 AFSK (continuous phase, "
@@ -613,13 +632,13 @@ MANIFEST_TEXT = {
                 "modelled blocks are also compared call by call with the Lean model.",
         "design_ref": "DESIGN.md section 2, C08",
         "note": "Proof covers the blocks named in RR/Props/C08.lean (sync family, Skip, Delay, RtlSdrDecode, FirFilter, "
-                "RationalResampler; FftFilter in C11, StreamToPdu in C10); Hilbert/SymbolSync/ZeroCrossing/deframers and the "
+                "RationalResampler, ZeroCrossing, SymbolSync; FftFilter in C11, StreamToPdu in C10); Hilbert/deframers and the "
                 "remaining converters are checked on the real code (drip-fed vs greedy), some also against Lean models. Many chunking defects were repaired by fix: commits (see KNOWN_FINDINGS.txt).",
         "technique": "Lean 4 proof (induction over arbitrary schedules) + drip-feed correspondence + real-vs-real chunking differential",
     },
     "C09": {
         "text": "Lean 4 theorems about work() on an arbitrary view for the sync family (any block built with the macro), Skip, "
-                "RtlSdrDecode and FirFilter (c09_fir: it asks for exactly ntaps+deci-1 samples, with which it will progress): consumption/commit within the windows; a wait names a stream that really lacks the amount; when no "
+                "RtlSdrDecode, ZeroCrossing/SymbolSync (c09_gated: waits name the empty input or the very output that is full, Again only with a consumed sample) and FirFilter (c09_fir: it asks for exactly ntaps+deci-1 samples, with which it will progress): consumption/commit within the windows; a wait names a stream that really lacks the amount; when no "
                 "stream lacks anything the call progresses; Again only with progress; ended+drained inputs are reported. For every "
                 "other block the same acceptor runs on real traces with the stream-identity hook.",
         "design_ref": "DESIGN.md section 2, C09",
@@ -661,7 +680,9 @@ MANIFEST_TEXT = {
                 "samples (Delay shifted by the zeros of that call); FirFilter forwards the tags of exactly the consumed samples "
                 "at index/decimation, inside the committed outputs (c12_fir); FftFilter, which buffers tags across calls with the "
                 "unfinished batch, for EVERY schedule: the tags handed on are exactly (as a multiset) the input tags of the emitted "
-                "samples at the same index and the rest are still held (c12_fft). Other tag-carrying blocks: identical tag multisets between a "
+                "samples at the same index and the rest are still held (c12_fft); Skip, Delay and FirFilter likewise for EVERY schedule "
+                "(c12_skip/_delay/_fir_any_chunking: handed-on tags = tags of the consumed samples at pos-skip, pos+delay, "
+                "pos/decimation, each once). Other tag-carrying blocks: identical tag multisets between a "
                 "drip-fed and a greedy real run, plus model comparison for correlator/burst tagger.",
         "design_ref": "DESIGN.md section 2, C12",
         "note": "The unfiltered-tags defects in Skip/FirFilter/Hilbert/Delay/FftFilter/Cma were repaired by fix: commits.",
@@ -763,15 +784,23 @@ MANIFEST_TEXT = {
                 "bits; COMPOSED (c20_digital_1200/9600): for every preamble, scrambler seed, line level, decoder state and "
                 "every list of payloads within the example's size limits, NRZI decoder -> (descrambler ->) deframer as "
                 "configured in the examples deliver exactly the payloads in order, after at most some garbage produced by the "
-                "preamble. The analog front end enters as the explicit hypothesis FrontEnd and "
+                "preamble. CLOCK RECOVERY (c20_zero_crossing_ideal): the ZeroCrossing step function - the definition the driver "
+                "runs in Float32 bit for bit against the real block - instantiated with exact rationals emits, for EVERY "
+                "samples-per-symbol >= 4, every symbol sequence and run length, exactly one sample per symbol with that "
+                "symbol's sign on the ideal NRZ waveform (through all zero-crossing resets and step-backs); composed with the "
+                "slicer and the digital back end (c20_9600_from_baseband) the 9600 chain from the baseband on delivers exactly "
+                "the payloads; the bound is needed (c20_zero_crossing_small_sps_duplicates: at 2.5 samples/symbol a symbol is "
+                "emitted twice). The remaining analog front end (filters, resampler, quadrature demodulator, f32 rounding) enters "
+                "as the explicit hypothesis FrontEnd and "
                 "is validated, not proved: generated Bell-202 and G3RUH transmissions at all supported sample rates with "
-                "arbitrary phase and symbol timing must be decoded exactly, on both runners.",
+                "arbitrary phase and symbol timing must be decoded exactly, on both runners; the real f32 ZeroCrossing is also "
+                "run on ideal waveforms (the theorem's statement) at 8 rates.",
         "design_ref": "DESIGN.md section 2, C20",
         "note": "Known finding: the 9600 example as written uses SymbolSync, which slips symbols on clean NRZ data at "
                 "non-integer samples/symbol below about 10.5 (50000/9600 = 5.208); the check uses the ZeroCrossing block for "
                 "the 9600 chain (the property names zero-crossing clock recovery) and keeps the example's variant as a probe. "
                 "Not mechanised: the float front end (hypothesis FrontEnd, validated on generated signals).",
-        "technique": "Lean 4 proofs for the digital back end over translator-checked chain definitions + end-to-end validation on generated signals",
+        "technique": "Lean 4 proofs for the digital back end and the clock recovery (exact arithmetic) over translator-checked chain definitions + bit-exact model correspondence + end-to-end validation on generated signals",
     },
 }
 
